@@ -7,7 +7,7 @@ CONFIG = {
     "race": True,
     "timeout": 2400,
     "trusted": [
-        "fact translator harness/cmd/facts_looplocks (go/ast over pkg/drivers/cdp/events/loop.go): which mode of Loop.mu is held at each access to the listener table and at the handler call; unknown shapes are emitted as LUnknown and fail the obligation",
+        "fact translator harness/cmd/facts_looplocks (go/ast over pkg/drivers/cdp/events/loop.go): which mode of Loop.mu is held at each access to the listener table and at the handler call; lock-helper methods of the shape h(fn func()) { mu.Lock(); defer mu.Unlock(); fn() } (and RLock / explicit-unlock variants) are recognised and the function literal passed to them is analysed under that mode; unknown shapes are emitted as LUnknown and fail the obligation",
         "modelled: Loop.v — one step = one critical section of Loop.mu (as delimited by the extracted lock table) or one instrumented action outside it; a context test is merged with the unconditional action that follows it; Go's map iteration order is a schedule-chosen permutation",
         "the harness' instrumentation: one mutex-ordered tick log; the tick of an API call start (end) is taken before (after) the call, the handler tick on entry, the cancel tick before cancel()",
         "Go race detector and the runtime's concurrent-map-access detector (direct violations), sync.RWMutex semantics, Go memory model and scheduler (validated, not proved)",
